@@ -294,6 +294,9 @@ class Lock:
         self.net = StubNet()
         bind(self.app, self.asap, self.smap, self.net)
         self.outs = []
+        self._re = None           # pending re-entrant request of the stub application
+        self._re_line = None
+        self._re_frame_line = None
         self.events = []          # model event lines, in order
         self.replies = []         # implementation replies, same order
         self.reset_line = {"op": "reset", "cfg": {k: cfg[k] for k in (
@@ -338,6 +341,29 @@ class Lock:
         self.outs.append(rec)
 
     def _up(self, kind, apdu):
+        self._up_record(kind, apdu)
+        if kind == "conf" and self._re is not None:
+            # the stub application re-enters the stack from INSIDE its confirmation callback.
+            # At this instant the answered transaction is already gone and the handler emits
+            # nothing after the callback: the frame event ends here (snapshot), the request
+            # event begins.
+            re, self._re = self._re, None
+            self._finish(self._re_frame_line)
+            self._re_frame_line = None
+            self.outs = []
+            self._re_line = {"op": "ev", "e": "req", "peer": re["peer"], "svc": re["svc"],
+                             "hex": bytes(re["data"]).hex(), "id": re["id"]}
+            from bacpypes.apdu import ConfirmedRequestPDU
+            try:
+                req = ConfirmedRequestPDU(re["svc"])
+                req.pduDestination = self.addrs[re["peer"]]
+                req.apduInvokeID = re["id"]
+                req.put_data(bytes(re["data"]))
+                self.app.request(req)
+            except Exception as e:
+                self.outs.append({"o": "raised", "k": raise_name(e)})
+
+    def _up_record(self, kind, apdu):
         if getattr(apdu, "apduInvokeID", None) is None and getattr(apdu, "pduSource", None) is None \
                 and kind == "conf":
             # the bare Error the ASAP substitutes for an undecodable ack / error
@@ -457,6 +483,37 @@ class Lock:
         seen = apdu_fields(apdu)
         self._guard(lambda: self.net.response(apdu))
         return self._finish({"op": "ev", "e": "frame", "peer": peer, "a": seen})
+
+    def frame_reenter(self, peer, a, re):
+        """like frame(), but the stub application submits the confirmed request `re`
+        ({"peer","svc","data","id"}) from INSIDE the confirmation callback this frame causes
+        (if it causes one).  For the model this is the `frame` event followed at once by a
+        `request` event; the frame line carries the marker "re" (ignored by the driver, used
+        by replays).  Returns (reply of the frame event, reply of the request event | None)."""
+        from bacpypes.apdu import APDU
+        from bacpypes.pdu import PDU
+        pdu = PDU(wire_of(a), source=self.addrs[peer], destination=self.local)
+        apdu = APDU()
+        apdu.decode(pdu)
+        seen = apdu_fields(apdu)
+        self._re = dict(re)
+        self._re_line = None
+        self._re_frame_line = {"op": "ev", "e": "frame", "peer": peer, "a": seen,
+                               "re": {"peer": re["peer"], "svc": re["svc"], "hex": bytes(re["data"]).hex(), "id": re["id"]}}
+        n0 = len(self.replies)
+        self._guard(lambda: self.net.response(apdu))
+        if self._re is not None:
+            # no confirmation callback happened: an ordinary frame event
+            self._re = None
+            line = self._re_frame_line
+            self._re_frame_line = None
+            line.pop("re")
+            return self._finish(line), None
+        # the frame event was closed inside the callback; what is in self.outs now belongs to
+        # the re-entrant request (and to anything the stack did after it returned)
+        r2 = self._finish(self._re_line)
+        self._re_line = None
+        return self.replies[n0], r2
 
     def tick(self, dt_us):
         """advance the clock; refuses to jump over a due task"""
